@@ -45,6 +45,9 @@ func (w *W) Int64(v int64) {
 
 type R struct {
 	R io.Reader
+	// OnEntry, if set, is called by DecodeList after each decoded file-list entry
+	// (the caller can note the stream position: entries become trace events).
+	OnEntry func(e *Entry)
 }
 
 func (r *R) Bytes(n int) ([]byte, error) {
